@@ -110,11 +110,11 @@ class Hist:
         recs = []
         for r in target.written():
             prev = self.m.state_before(r.oid, tid)
-            # the undo record is a back-pointer (size 0) to the revision before `tid`
+            # the undo record is a back-pointer (size 0) to the revision just before `tid`
             holder = None
             for t2, r2 in self.m.revs(r.oid):
                 if t2 < tid:
-                    holder = r2.data_txn or t2
+                    holder = t2
             recs.append(MRec(r.oid, prev, 0, holder if prev is not None else None))
         self.m.add(MTxn(new, recs, user, desc, kind='undo'))
         for r in recs:
